@@ -138,12 +138,16 @@ package updog
 //@    && (forall j idx(x.(*ExprOr).Exprs) :: wf(x.(*ExprOr).Exprs[j])) ==> wf(x)
 
 //@ pred SchemaOK(s *schema) := s != nil && (forall k string :: (k in s.Columns) ==> s.Columns[k] != nil)
-//@ pred IdxInv(idx *Index) := idx != nil && SchemaOK(idx.schema) && idx.metrics != nil && idx.values != nil && CacheValid(idx.cache)
+//@ pred IdxInv(idx *Index) := idx != nil && SchemaOK(idx.schema) && idx.metrics != nil && GetterValid(idx.values) && CacheValid(idx.cache)
 //@   && (forall c string, v string :: (c in idx.schema.Columns) && (v in idx.schema.Columns[c].Values) ==> (idx.schema.Columns[c].Values[v] in idx.values.has))
 
 //@ ghost field colGetter.has iset
+//@ pred GetterValid(g colGetter) := g != nil && (typeof(g) == ptrtag(onDemandColGetter) || typeof(g) == ptrtag(preloadedColGetter))
+//@   && (typeof(g) == ptrtag(onDemandColGetter) ==> iref(g) != nil && DBOpen(g.(*onDemandColGetter).db))
+//@   && (typeof(g) == ptrtag(preloadedColGetter) ==> iref(g) != nil && (forall k uint64 :: (k in g.has) ==>
+//@         (k in g.(*preloadedColGetter).values) && g.(*preloadedColGetter).values[k] != nil))
 //@ interface colGetter.GetCol(g, key) (bm, err)
-//@   requires g != nil
+//@   requires GetterValid(g)
 //@   ensures err == nil && (key in g.has) ==> bm != nil
 //@   ensures err != nil ==> bm == nil
 
@@ -269,3 +273,45 @@ package updog
 //@   loop 2
 //@     invariant forall j idx(e.Exprs) :: j < $i ==> wf(e.Exprs[j])
 //@     invariant 0 <= $i
+
+
+// ---------------------------------------------------------------------------------------------------------------
+// index.go — opening, column getters (C15, C16, C14)
+
+//@ func [C14,C15,C16,C04] (*onDemandColGetter).GetCol(g, key) (bm, err) inherits colGetter.GetCol
+//@   requires g != nil && DBOpen(g.db)
+//@   ensures [C16] g.db.committed == old(g.db.committed) && g.db.ncommits == old(g.db.ncommits)
+
+//@ func [C14,C15,C16,C04] (*preloadedColGetter).GetCol(cg, key) (bm, err) inherits colGetter.GetCol
+//@   requires cg != nil
+
+// Options: every IndexOption leaves the database open and untouched and keeps what it does not set.
+//@ functype IndexOption.call(idx) (err)
+//@   requires idx != nil && DBOpen(idx.db) && !idx.db.wopen && idx.metrics != nil && CacheValid(idx.cache)
+//@   modifies idx.values; idx.cache; idx.metrics
+//@   ensures !idx.db.closed && !idx.db.wopen && idx.db.committed == old(idx.db.committed) && idx.db.ncommits == old(idx.db.ncommits)
+//@   ensures err == nil ==> idx.metrics != nil && CacheValid(idx.cache)
+//@   ensures err == nil ==> (idx.values == nil || GetterValid(idx.values)) || idx.values == old(idx.values)
+
+//@ func [C15,C16,C14] OpenIndexFromBoltDatabase(db, opts) (idx, err)
+//@   requires DBOpen(db) && !db.wopen
+//@   requires forall j idx(opts) :: opts[j] != nil
+//@   modifies db.closed
+//@   ensures [C15] closed_on_error: err != nil ==> idx == nil && db.closed
+//@   ensures [C15] err == nil ==> idx != nil && fresh(idx) && !db.closed && idx.db == db && SchemaOK(idx.schema) && idx.metrics != nil && CacheValid(idx.cache) && idx.values != nil
+//@   ensures [C16] read_only: db.committed == old(db.committed) && db.ncommits == old(db.ncommits) && !db.wopen
+//@   loop 1
+//@     invariant idx != nil && !(idx in old($alloc)) && idx.db == db && DBOpen(db) && !db.wopen && idx.metrics != nil && CacheValid(idx.cache) && SchemaOK(idx.schema)
+//@     invariant db.committed == old(db.committed) && db.ncommits == old(db.ncommits) && 0 <= $i
+
+//@ func [C15] (*Index).Close(idx) (err)
+//@   requires idx != nil && (idx.db != nil ==> !idx.db.wopen)
+//@   modifies idx.db; heap bbolt.DB.closed at idx.db
+//@   ensures [C15] old(idx.db) != nil ==> old(idx.db).closed
+//@   ensures [C15] idx.db == nil
+//@   ensures [C15] second_close_is_noop: old(idx.db) == nil ==> err == nil
+
+// package-level byte slices used as keys: set once by the package initialiser, never modified
+//@ fieldinv global.keySchema: len($v) == 1 && cap($v) == 1 && arr($v) != nil && heap("[]uint8")[arr($v)][off($v)] == 83
+//@ fieldinv global.keyNextRowID: len($v) == 1 && cap($v) == 1 && arr($v) != nil && heap("[]uint8")[arr($v)][off($v)] == 73
+//@ fieldinv global.keyPrefixValue: len($v) == 1 && cap($v) == 1 && arr($v) != nil && heap("[]uint8")[arr($v)][off($v)] == 86
